@@ -525,6 +525,38 @@ func c10Run(c *engine.Ctx) {
 		}
 		c.DistinctN(1)
 	}
+	// zero-padded integer literals (query text and tonumber): decimal whatever their size
+	if c.MineIdx(0) {
+		for _, body := range []string{"007", "010", "000", "0100000000000000000000", "00018446744073709551616", "0009223372036854775808", "0777777777777777777777777", "00000000000000000000001", "08", "0123456789012345678901234567890"} {
+			for _, sign := range []string{"", "-"} {
+				lit := sign + body
+				c.Eval()
+				if msg := c10CheckQueryLiteral(lit); msg != "" {
+					c.Violation("query:"+lit, "query-literal", map[string]any{"literal": lit, "msg": msg})
+				}
+				want := strings.TrimLeft(body, "0")
+				if want == "" {
+					want = "0"
+				} else {
+					want = sign + want
+				}
+				for _, src := range []string{fmt.Sprintf("%q | tonumber", lit), fmt.Sprintf("%s == %s", lit, want), fmt.Sprintf("%s - %s", lit, want), fmt.Sprintf("[%s] | tojson | fromjson | .[0]", lit)} {
+					v, bad := single(RunText(src, nil, DefaultBudget))
+					got, _ := marshalStr(v)
+					exp := want
+					if strings.Contains(src, "==") {
+						exp = "true"
+					} else if strings.Contains(src, " - ") {
+						exp = "0"
+					}
+					if bad != "" || got != exp {
+						c.Violation("padded:"+src, "query-literal", map[string]any{"literal": lit, "msg": fmt.Sprintf("%s = %s %s, want %s", src, got, bad, exp)})
+					}
+				}
+				c.DistinctN(1)
+			}
+		}
+	}
 	c.Sample(map[string]any{"literal": "-12345678901234567890.000000000000000000001e-9"})
 
 	c.Sub("floats")
